@@ -31,8 +31,10 @@ Definition restart (s : stream) (draws : list nat) : stream :=
   {| l_ufrag := gen_print (take DEF_UFRAG_LEN draws); l_pwd := gen_print (take DEF_PWD_LEN (drop DEF_UFRAG_LEN draws));
      r_ufrag := []; r_pwd := []; r_cands := []; checks := []; ibr := false; cstates := map (fun _ => 1%nat) (cstates s) |}.
 
-(** conncheck_stun_validater: the password returned for an inbound check is the CURRENT local password, and only when the
-    USERNAME starts with the current local ufrag followed by ':' *)
+(** conncheck_stun_validater (local candidates without a username/password of their own, i.e. every candidate of a standard-ICE agent):
+    the password returned for an inbound check is the CURRENT local password, and only when the local ufrag is non-empty and the
+    USERNAME starts with it ([ufrag_len > 0 && username_len >= ufrag_len && memcmp (username, ufrag, ufrag_len) == 0]; the ':' that
+    follows is not looked at).  The three statements are checked to be present in agent/conncheck.c on every run (lib/tabgen.py). *)
 Fixpoint prefix (p l : list Z) : bool := match p, l with [], _ => true | a :: p', b :: l' => (a =? b) && prefix p' l' | _, _ => false end.
 Definition validater (s : stream) (uname : list Z) : option (list Z) :=
-  if prefix (l_ufrag s ++ [58]) uname then Some (l_pwd s) else None.
+  if (0 <? length (l_ufrag s))%nat && prefix (l_ufrag s) uname then Some (l_pwd s) else None.
